@@ -9,7 +9,7 @@ CHECKS = {
  "C01": ("TLC trace validation (JPart judge, Contract.IsTruePartition) of executions on a TLC-enumerated input scope; L1 machines model-checked",
          "Every partitioner is executed on every input of a TLC-enumerated bounded universe (all bags, all k, all 48 complete-greedy configurations, three presentations) and on seeded families; each recorded call/return is accepted or rejected by TLC against the L0 contract clause. Bounded-exhaustive + sampled, not a proof.",
          "Trusted: TLC/SANY/CommunityModules, Contract.tla, the harness's name<->id mapping; totals < 2^31.", "7 C01"),
- "C02": ("TLC trace validation (JPart judge, Contract.ValueOfResult = Oracles.Opt computed in TLA+) of executions of every exact partitioner on a TLC-enumerated input scope and seeded families",
+ "C02": ("TLC trace validation (JPart judge, Contract.ValueOfResult = Oracles.Opt computed in TLA+; beyond the oracle's size JWit: results against witness partitions that TLC checks itself) of executions of every exact partitioner on a TLC-enumerated input scope and seeded families",
          "dp (5 objectives, all k-parameters), complete greedy (16 switch combinations x 3 objectives), ckk, snp, rnp and sub-sampled ilp are executed on every bag of a TLC-enumerated bounded universe and on seeded random families; TLC recomputes the optimum from the problem definition and accepts or rejects each result. Bounded-exhaustive + sampled, not a proof.",
          "Trusted: TLC, Oracles.Opt (cross-validated against brute force in each run), harness name<->id mapping; ILP answers rejected once are re-solved with preprocessing off (solver-inconsistency rule of the property).", "7 C02"),
  "C08": ("TLC trace validation (JPart/JCert judges: integer forms of the published ratio bounds against Oracles.Opt or a TLC-checked certificate) of greedy, kk, multifit, round-robin executions",
@@ -42,7 +42,7 @@ CHECKS = {
  "C14": ("TLC trace validation (JPart/JPack judges: result = Textbook.tla transcription of the documented rule) + TLC model checking of the textbook machines against the contract",
          "Greedy, round-robin, ff, ffd, bf, bfd and the three covers are executed on every arrival sequence of a TLC-enumerated scope (all tie patterns, exact fills, items at binsize/2 and binsize/3) and seeded families; TLC compares bag of sums (all) and bins as bags of values (rr, ff, ffd, covers) with the rule; the rule machines are model-checked against L0 and tie freedom shown irrelevant.",
          "Trusted: TLC, Textbook.tla as the reading of the documentation.", "7 C14"),
- "C19": ("TLC trace validation (JPack C19 clause, JRefuse judge) of TLC-enumerated malformed requests: oversize items at every position / multiplicity x format x output type x packer; cbldm calls with exactly one invalid argument",
+ "C19": ("TLC trace validation (JPack C19 clause, JRefuse judge, JBigRefuse with two-limb comparison at bin sizes 2^53 / 1e16) of TLC-enumerated malformed requests: oversize items at every position / multiplicity x format x output type x packer; cbldm calls with exactly one invalid argument",
          "TLC enumerates every sequence with >=1 oversize item (<=5 items) and every cbldm call with one invalid argument; each is executed in list/dict/valueof presentation and all ten output types; TLC requires ValueError (and an answer for the all-valid control); numitems probed on both managers.",
          "Trusted: TLC.", "7 C19"),
  "C13": ("TLC model checking of the transcribed bounds (Bounds.tla admissible w.r.t. Oracles.BestReach) + TLC trace validation (J13 judge) of direct calls to Objective.lower_bound, InExclusionBinTree.generate_tree and Binner.all_combinations on TLC-enumerated universes",
@@ -57,7 +57,7 @@ CHECKS = {
  "C11": ("TLC model checking of the abstract anytime search (Anytime.tla: ResultValid, Monotone, OptimalWhenExhausted) + TLC trace specification JAnytime stepping the complete CUT HISTORY (one run per clock reading under a counting clock) of complete greedy, CBLDM and the CKK generator",
          "With a deterministic counting clock installed as the modules' time attribute, every possible cut point c = 1..R of every run on a TLC-enumerated universe (3 objectives x switch combinations; CBLDM bounds) is executed; TLC steps each history: None or a true partition, never worse with a larger limit, first complete-greedy solution = LPT, unlimited result optimal; generator yields valid, strictly improving, snapshot-stable.",
          "Trusted: TLC, Oracles.Opt/OptBalanced, the counting clock (logical cut points only, no wall-clock behaviour).", "7 C11"),
- "C15": ("TLC-generated call histories (Session.tla: every ordered pair of a 45-call menu exhaustively, simulated long histories) replayed in freshly forked interpreters + TLC trace specification JSession (return = fresh-interpreter return, arguments unchanged)",
+ "C15": ("TLC-generated call histories (Session.tla: every ordered pair of a 168-call menu exhaustively, simulated long histories) replayed in freshly forked interpreters + TLC trace specification JSession (return = fresh-interpreter return, arguments unchanged)",
          "A menu mixing all algorithms, presentations, output types, options and failing calls; TLC enumerates all ordered pairs and simulates long histories; each runs in one interpreter; TLC compares every return with the same call's return in a fresh interpreter under two hash seeds and the argument digests before/after.",
          "Trusted: TLC, canonical digest of results, process isolation by fork from a parent that only imported prtpy.", "7 C15"),
  "C17": ("TLC trace validation (JIlp judge: exhaustive enumeration of all assignments of item copies to weighted bins in TLA+) of ILP calls with copies / weights / additional constraints / injected solver statuses",
